@@ -6,7 +6,7 @@
 //
 // Op language / observations: see lean/Cell2v/Driver/C02.lean.
 //
-//	reset nc=<k> | bind c=<i> to=<name|-> | reqs [frag=<k>] q=<c>,<id>,<route>,<pay>|… | pipe c=<i> q=… | adv | flush
+//	reset nc=<k> | join n=<k> | bind c=<i> to=<name|-|#n> | reqs [frag=<k>] q=<c>,<id>,<route>,<pay>|… | pipe c=<i> q=… | adv | flush
 //	obs: r=<c>:resp:<id>:<err>:<hex>,…  i=<svc>:<method>:<v>,…   (both sorted: multisets)
 package c02
 
@@ -34,6 +34,7 @@ import (
 	"github.com/dfklegend/cell2/node/client/impls"
 	implcfg "github.com/dfklegend/cell2/node/client/impls/config"
 	"github.com/dfklegend/cell2/node/cluster"
+	noderoute "github.com/dfklegend/cell2/node/route"
 	"github.com/dfklegend/cell2/node/service"
 	"github.com/dfklegend/cell2/nodectrl/define"
 	"github.com/dfklegend/cell2/pomelonet/common/conn/message"
@@ -289,7 +290,20 @@ func start(h *hx.T) *world {
 		}
 	}
 	node.RegisterHandler("frame", &Scripted{}, "scr")
-	node.RouteBySessionKey("chat", "chatid")
+	// type chat is routed by the session key chatid, read the way application route functions read
+	// it (chat2: an unchecked type assertion): a key that holds something else than a string — a
+	// back-end pushed it as a JSON number — makes the route function PANIC; RouteService.doRoute
+	// recovers and answers "" (no target → error response)
+	node.Route("chat", func(serverType string, p noderoute.IRouteParam) string {
+		if p == nil {
+			return noderoute.NoService
+		}
+		v := p.Get("chatid", "").(string)
+		if v == "" {
+			return noderoute.NoService
+		}
+		return v
+	})
 	// every session reads its packets through the REAL tcpPlayerConn.GetNextMessage (overlay shim)
 	node.Framing = acceptor.VerifTCPPlayerConn
 	n := node.Start(node.Options{
@@ -360,6 +374,29 @@ func (w *world) collect() string {
 	return "r=" + strings.Join(rs, ",") + " i=" + strings.Join(is, ",")
 }
 
+// accept: k clients connect together through the real accept loop, then each handshakes; lists the
+// connections that were not served by exactly one session or got no handshake response
+func (w *world) accept(k int) string {
+	var odd []string
+	for _, c := range w.n.Accept("gate-1", k) {
+		ok := c.Open()
+		hs := 0
+		for _, m := range c.Take() {
+			if m.Kind == "handshake" {
+				hs++
+			}
+		}
+		if !ok || c.Served != 1 || hs != 1 || c.Stuck() {
+			odd = append(odd, fmt.Sprintf("%d:%d:%d", len(w.clients), c.Served, hs))
+		}
+		w.clients = append(w.clients, c)
+	}
+	if len(odd) > 0 {
+		return "ok conn=" + strings.Join(odd, ",")
+	}
+	return "ok"
+}
+
 func (w *world) exec(op string) string {
 	ws := hx.Words(op)
 	if len(ws) == 0 {
@@ -381,15 +418,18 @@ func (w *world) exec(op string) string {
 		if nc < 1 || nc > 8 {
 			return "bad-op"
 		}
-		for i := 0; i < nc; i++ {
-			c := w.n.Connect("gate-1")
-			if !c.Open() {
-				return "bad-op"
-			}
-			c.Take()
-			w.clients = append(w.clients, c)
+		// the nc clients connect at the same moment: their connections are queued together in the
+		// acceptor's channel and turned into sessions by the REAL accept loop (pomelo.StartAcceptor);
+		// every connection must be served by exactly one session and answer the handshake
+		return w.accept(nc)
+	case "join":
+		// n MORE clients connect at the same moment in the middle of a case (a reconnect storm while the
+		// front has sessions and requests in flight): same path, same observation as reset
+		k := hx.KVInt(ws, "n")
+		if k < 1 || len(w.clients)+k > 8 {
+			return "bad-op"
 		}
-		return "ok"
+		return w.accept(k)
 	case "bind":
 		i := hx.KVInt(ws, "c")
 		to, ok := hx.KV(ws, "to")
@@ -400,9 +440,20 @@ func (w *world) exec(op string) string {
 			to = ""
 		}
 		c := w.clients[i]
+		// to=#<n> / to=#null: the key holds the NUMBER n / nil (what sys.pushsession stores for a JSON number / null), not a string
+		var val interface{} = to
+		if to == "#null" {
+			val = nil // a JSON null
+		} else if strings.HasPrefix(to, "#") {
+			f, err := strconv.ParseFloat(to[1:], 64)
+			if err != nil {
+				return "bad-op"
+			}
+			val = f
+		}
 		w.n.RunOn("gate-1", func(ns *service.NodeService) {
 			if fs := w.n.Sessions("gate-1").GetSession(c.NetId()); fs != nil {
-				fs.Set("chatid", to)
+				fs.Set("chatid", val)
 			}
 		})
 		return "ok"
@@ -462,7 +513,13 @@ func (w *world) exec(op string) string {
 		q, _ := hx.KV(ws, "q")
 		release := make(chan struct{})
 		w.n.RunOn("gate-1", func(ns *service.NodeService) { <-release }) // the owner is now occupied
-		c := w.n.Connect("gate-1")                                        // OnSessionCreate is posted, not run
+		c := w.n.Accept("gate-1", 1)[0]                                   // through the accept loop: OnSessionCreate is posted, not run
+		if c.Served != 1 {
+			w.clients = append(w.clients, c)
+			close(release)
+			w.n.Wait()
+			return fmt.Sprintf("r= i= conn=%d:%d:0", i, c.Served)
+		}
 		early := c.NetId() == 0
 		ok := c.Open()
 		var frame []byte
@@ -569,7 +626,7 @@ var (
 	// routes that are not valid UTF-8 (%xx = raw byte): a forwarded envelope can not be serialised
 	badUTF8    = []string{"hall.zoo.ech%ff", "chat.zoo.%c3%28", "hall.%fezoo.echo", "chat.zoo.echo%80", "gate.zoo.ech%ff", "ha%ffll.zoo.echo"}
 	malformed  = []string{"", ".", "..", "...", "gate", "gatezooecho", "gate.zoo", "chat.zoo", "gate.zoo.echo.x", "chat.zoo.echo.x", "a.b.c.d.e", "gate..", "chat..", "..echo", ".zoo.echo", "gate.zoo.", "chat..echo", "gate.zoo.echo.", ".gate.zoo.echo"}
-	bindings   = []string{"chat-1", "chat-1", "chat-2", "chat-2", "chat-7", "chat-9", "gate-1", "hall-1", "-"}
+	bindings   = []string{"chat-1", "chat-1", "chat-2", "chat-2", "chat-7", "chat-9", "gate-1", "hall-1", "-", "#7"}
 	specialIDs = []uint64{0, 0, 1, 127, 128, 1<<32 - 1, 16383, 16384}
 	// D19 (known finding C02/request-id-truncated): ids that do not fit the 32-bit envelope field
 	bigIDs    = []uint64{1 << 32, 1<<32 + 5, 1<<33 + 1, 1<<64 - 1}
@@ -725,6 +782,13 @@ func (g *gen) genCase() []string {
 			g.h.Count("pipe")
 			ops = append(ops, fmt.Sprintf("pipe c=%d q=%s", nc, strings.Join(items, "|")))
 			nc++
+			continue
+		}
+		if nc < 5 && r.Intn(24) == 0 {
+			k := 1 + r.Intn(2)
+			g.h.Count(fmt.Sprintf("join.%d", k))
+			ops = append(ops, fmt.Sprintf("join n=%d", k))
+			nc += k
 			continue
 		}
 		if r.Intn(20) == 0 {
